@@ -210,6 +210,33 @@ def mi_sibling_family(rng, kind=None, p_hook=0.8):
     return exoticise(rng, out)
 
 
+def twin_base_family(rng, p_hook=0.85):
+    """Two *different* base layer objects that carry the same name (two
+    instances of one resource-layer class whose name defaults to the class
+    name - plone.testing style) under two differently named test layers:
+    the runner tells layers it reaches through __bases__ apart by identity.
+    The world knows the twins by their own keys (r1, r2); 'pyname' is the
+    __name__ both objects show to the runner."""
+    r1, r2, a, b, c = rng.sample(NAME_POOL, 5)
+    shared = rng.choice(['Resource', 'res', 'ZODB'])
+
+    def hooks(force=()):
+        h = {x: 'ok' for x in HOOKS if rng.random() < p_hook}
+        for x in force:
+            h[x] = 'ok'
+        return h
+    out = [{'name': r1, 'kind': 'inst', 'bases': [], 'pyname': shared,
+            'hooks': hooks(('setUp', 'tearDown'))},
+           {'name': r2, 'kind': 'inst', 'bases': [], 'pyname': shared,
+            'hooks': hooks(('setUp', 'tearDown'))},
+           {'name': a, 'kind': 'inst', 'bases': [r1], 'hooks': hooks()},
+           {'name': b, 'kind': 'inst', 'bases': [r2], 'hooks': hooks()}]
+    if rng.random() < 0.5:
+        out.append({'name': c, 'kind': 'inst',
+                    'bases': [rng.choice([r1, r2, a])], 'hooks': hooks()})
+    return out
+
+
 def _mro_ok(specs, base_idx):
     """Check that a class with these bases has a consistent MRO."""
     classes = {}
